@@ -347,6 +347,34 @@ theorem finalSt_post {srt : Sorter} (hs : srt.OK) (m : Mint) (proofs : List P) (
     (initSt_inv hs m amount inc proofs) ?_
   rw [initSt_measure hs]; omega
 
+/-- The fuel of `selectLoop` is not a modelling assumption: any two fuels above the number of proofs not yet
+    selected give the same final state (Go's loop has no bound; it leaves after at most that many iterations). -/
+theorem selectLoop_fuel_irrelevant {srt : Sorter} (hs : srt.OK) {m : Mint} {amount : UInt64} {inc : Bool}
+    {proofs : List P} : ∀ (f1 f2 : Nat) (st : LoopSt), LoopInv m amount inc proofs st →
+      st.measure < f1 → st.measure < f2 →
+      selectLoop srt m amount inc f1 st = selectLoop srt m amount inc f2 st := by
+  intro f1
+  induction f1 with
+  | zero => intro f2 st _ h; exact absurd h (Nat.not_lt_zero _)
+  | succ f1 ih =>
+    intro f2 st hI h1 h2
+    cases f2 with
+    | zero => exact absurd h2 (Nat.not_lt_zero _)
+    | succ f2 =>
+      simp only [selectLoop]
+      cases hstep : loopStep srt m amount inc st with
+      | done st' => rfl
+      | next st' =>
+        have := loopStep_next hs hI hstep
+        exact ih f2 st' this.1 (by omega) (by omega)
+
+theorem selectProofsToSend_fuel {srt : Sorter} (hs : srt.OK) (m : Mint) (proofs : List P) (amount : UInt64)
+    (inc : Bool) (fuel : Nat) (hf : proofs.length < fuel) :
+    selectLoop srt m amount inc fuel (initSt srt proofs amount) = finalSt srt m proofs amount inc := by
+  unfold finalSt
+  exact selectLoop_fuel_irrelevant hs _ _ _ (initSt_inv hs m amount inc proofs)
+    (by rw [initSt_measure hs]; exact hf) (by rw [initSt_measure hs]; omega)
+
 theorem selectProofsToSend_eq (srt : Sorter) (m : Mint) (proofs : List P) (amount : UInt64) (inc : Bool) :
     selectProofsToSend srt m proofs amount inc =
       if proofsAmount proofs < amount then .errBalance
